@@ -313,6 +313,7 @@ impl Default for ZipOffsetBlobStoreBuilder {
 pub struct BatchZipOffsetBlobStoreBuilder {
     inner: ZipOffsetBlobStoreBuilder,
     batch_buffer: FastVec<u8>,
+    batch_lens: Vec<usize>,
     batch_size: usize,
     records_in_batch: usize,
 }
@@ -323,6 +324,7 @@ impl BatchZipOffsetBlobStoreBuilder {
         Ok(Self {
             inner: ZipOffsetBlobStoreBuilder::new()?,
             batch_buffer: FastVec::new(),
+            batch_lens: Vec::new(),
             batch_size,
             records_in_batch: 0,
         })
@@ -333,6 +335,7 @@ impl BatchZipOffsetBlobStoreBuilder {
         Ok(Self {
             inner: ZipOffsetBlobStoreBuilder::with_config(config)?,
             batch_buffer: FastVec::new(),
+            batch_lens: Vec::new(),
             batch_size,
             records_in_batch: 0,
         })
@@ -341,16 +344,19 @@ impl BatchZipOffsetBlobStoreBuilder {
     /// Add record to batch
     pub fn add_record(&mut self, data: &[u8]) -> Result<RecordId> {
         // Add to batch buffer
+        // The record's ID is its position in insertion order
+        let record_id = self.inner.len() + self.records_in_batch;
+
         self.batch_buffer.extend(data.iter().cloned())?;
-        self.batch_buffer.push(0)?; // Record separator
+        self.batch_lens.push(data.len());
         self.records_in_batch += 1;
 
-        // Flush batch if it's full
+        // Flush batch if it reaches the target size
         if self.records_in_batch >= self.batch_size {
             self.flush_batch()?;
         }
 
-        Ok(self.inner.len() as u32) // Return next record ID
+        Ok(record_id as u32)
     }
 
     /// Flush current batch to inner builder
@@ -359,14 +365,15 @@ impl BatchZipOffsetBlobStoreBuilder {
             return Ok(());
         }
 
-        // For now, just process the entire buffer as one record
-        // TODO: Implement proper record separation
-        if !self.batch_buffer.is_empty() {
-            self.inner.add_record(&self.batch_buffer.as_slice())?;
+        // Every buffered record becomes its own record of the store
+        let mut start = 0usize;
+        for &len in &self.batch_lens {
+            self.inner.add_record(&self.batch_buffer.as_slice()[start..start + len])?;
+            start += len;
         }
 
-        // Clear batch
         self.batch_buffer.clear();
+        self.batch_lens.clear();
         self.records_in_batch = 0;
 
         Ok(())
